@@ -561,7 +561,7 @@ class QLSTMCell(LSTMCell):
         kernel_initializer=kernel_initializer,
         recurrent_initializer=recurrent_initializer,
         bias_initializer=bias_initializer,
-        unit_forget_bias=True,
+        unit_forget_bias=unit_forget_bias,
         kernel_regularizer=kernel_regularizer,
         recurrent_regularizer=recurrent_regularizer,
         bias_regularizer=bias_regularizer,
